@@ -15,10 +15,21 @@ GENS = {
 }
 
 
+# Every check builds freshly generated code in a fresh scratch module, so nothing it compiles is ever
+# reused by a later run: with the shared user-level build cache that is ~0.5 GB of dead entries per
+# run (135 GB filled the disk once). Each Scratch therefore gets its own GOCACHE, seeded with hard
+# links to a base cache (standard library + repository packages, built by ./setup) and deleted with
+# the scratch directory.
+GOCACHE_BASE = os.path.join(VERIF, ".work", "gocache-base")
+CUR_GOCACHE = None
+
+
 def goenv():
     e = dict(os.environ)
     e.update({"GOFLAGS": "-mod=mod", "GOPROXY": "off", "GOSUMDB": "off", "GOTOOLCHAIN": "local",
               "CGO_ENABLED": e.get("CGO_ENABLED", "0")})
+    if CUR_GOCACHE and not os.environ.get("VERIF_SHARED_GOCACHE"):
+        e["GOCACHE"] = CUR_GOCACHE
     return e
 
 
@@ -36,9 +47,21 @@ def run(cmd, cwd=None, env=None, timeout=None, check=True, capture=True):
 
 
 class Scratch:
-    def __init__(self):
+    def __init__(self, gocache=True):
+        global CUR_GOCACHE
         base = os.environ.get("VERIF_SCRATCH_BASE", "/tmp")
         self.dir = tempfile.mkdtemp(prefix="verif-", dir=base)
+        if gocache:
+            gc = os.path.join(self.dir, "gocache")
+            if os.path.isdir(GOCACHE_BASE):
+                # hard links: no copying, and the base is never modified (the cache only adds / renames files)
+                p = subprocess.run(["cp", "-al", GOCACHE_BASE, gc], stdout=subprocess.DEVNULL, stderr=subprocess.DEVNULL)
+                if p.returncode != 0:
+                    shutil.rmtree(gc, ignore_errors=True)
+                    os.makedirs(gc, exist_ok=True)
+            else:
+                os.makedirs(gc, exist_ok=True)
+            CUR_GOCACHE = gc
 
     def close(self):
         # generated files may be read-only
